@@ -16,7 +16,7 @@ if REPO not in sys.path:
 
 import numpy as np  # noqa: E402
 import nptdms  # noqa: E402
-from nptdms import TdmsFile  # noqa: E402
+from nptdms import TdmsFile as _RealTdmsFile  # noqa: E402
 from nptdms.log import log_manager  # noqa: E402
 
 log_manager.set_level(logging.CRITICAL)
@@ -39,6 +39,9 @@ def _alarm(_s, _f):
     raise Watchdog('execution exceeded the per-execution watchdog')
 
 
+signal.signal(signal.SIGALRM, _alarm)   # also in the parent process: the watchdog must never be fatal by default action
+
+
 def arm_worker():
     """Called once in every worker process."""
     try:
@@ -50,12 +53,47 @@ def arm_worker():
     signal.signal(signal.SIGALRM, _alarm)
 
 
+def _timed(fn, *a, **kw):
+    """Arms the watchdog around a call unless an enclosing guard already did (a hang in code that is not wrapped by
+    `guarded` then ends the work item with a harness error instead of blocking the check for ever)."""
+    if signal.getitimer(signal.ITIMER_REAL)[0] > 0:
+        return fn(*a, **kw)
+    signal.setitimer(signal.ITIMER_REAL, float(os.environ.get('VERIF_WATCHDOG_S', '10')) * 3)
+    try:
+        return fn(*a, **kw)
+    finally:
+        signal.setitimer(signal.ITIMER_REAL, 0)
+
+
+class TdmsFile(object):
+    """The three public constructors of nptdms.TdmsFile, each under the watchdog."""
+
+    @staticmethod
+    def read(*a, **kw):
+        return _timed(_RealTdmsFile.read, *a, **kw)
+
+    @staticmethod
+    def open(*a, **kw):
+        return _timed(_RealTdmsFile.open, *a, **kw)
+
+    @staticmethod
+    def read_metadata(*a, **kw):
+        return _timed(_RealTdmsFile.read_metadata, *a, **kw)
+
+
+_HANGS = [0]
+
+
 def guarded(fn, *a, **kw):
     """-> ('ok', value) | ('raised', TypeName, message)"""
+    if _HANGS[0] >= 3:
+        # the code under test has hung three times in this process already: do not spend 10 s on every further case
+        return ('raised', 'Watchdog', 'not executed: the code under test hung repeatedly in this worker')
     signal.setitimer(signal.ITIMER_REAL, float(os.environ.get('VERIF_WATCHDOG_S', '10')))
     try:
         return ('ok', fn(*a, **kw))
     except Watchdog as e:
+        _HANGS[0] += 1
         return ('raised', 'Watchdog', str(e))
     except MemoryError as e:
         return ('raised', 'MemoryError', str(e))
